@@ -68,7 +68,11 @@ def lookup_records(ctx, prefix, ts0, tid, text, vnode_id, lookup_id):
 def new_parser():
     from pykdebugparser.traces_parser import TracesParser
     by_id, _ = codes()
-    return TracesParser(by_id, SymMap(name='threads_pids'), SymMap(name='pids_names'))
+    p = TracesParser(by_id, SymMap(name='threads_pids'), SymMap(name='pids_names'))
+    for attr in ('global_strings', 'tids_names'):
+        if isinstance(getattr(p, attr, None), dict):
+            setattr(p, attr, SymMap(name=attr))
+    return p
 
 
 PRE_NAMES = ['prestateA', '', 'q']
@@ -236,10 +240,12 @@ class Outcome:
         self.pieces = pieces
 
 
-def run_window(ctx, name, a, r, lookups=(), tid=TID, ts0=100, code_name=None, lost=(), nested=0):
+def run_window(ctx, name, a, r, lookups=(), tid=TID, ts0=100, code_name=None, lost=(), nested=0, prior=()):
     """START(a) [lookup records] END(r) of decoder `name` on one thread through the real pipeline.
     lost: word lists of earlier STARTs of the same code on the same thread whose END never arrives
-    nested: number of unrelated single records (a disk-I/O code, concrete words) the thread logs inside the window"""
+    nested: number of unrelated single records (a disk-I/O code, concrete words) the thread logs inside the window
+    prior: (name, a, r) windows the same parser handled before on the same thread; what they raise is swallowed, as a caller
+           that logs the error and goes on with the next record would"""
     by_id, by_name = codes()
     eid = by_name[code_name or name]
     lid = by_name['VFS_LOOKUP']
@@ -257,6 +263,15 @@ def run_window(ctx, name, a, r, lookups=(), tid=TID, ts0=100, code_name=None, lo
             ts += 1
     evs.append(make_event(ts + 1, r, tid, eid | K.DBG_FUNC_END))
     p = new_parser()
+    for i, (pn, pa, pr) in enumerate(prior):
+        pid_ = by_name[pn]
+        for ev in (make_event(ts0 - 50 + 2 * i, pa, tid, pid_ | K.DBG_FUNC_START), make_event(ts0 - 49 + 2 * i, pr, tid, pid_ | K.DBG_FUNC_END)):
+            try:
+                t = p.feed(ev)
+                if t is not None:
+                    str(t)
+            except Exception as e:       # noqa
+                __import__('vxlib.symx.core', fromlist=['x']).proxy_rejected(e)
     out = []
     try:
         for t in p.feed_generator(iter(before + evs)):
